@@ -129,6 +129,10 @@ FecRecovers(e) == /\ e.t = "F" /\ cf.fec >= 1 /\ e.lb = 1
                   /\ FecPossible(w.d, RxPkt(e), CallOf(e))
 
 Level == LevelOf(w.lv5)
+\* M1 / M2 were calibrated on the signal families without pauses and onsets from digital silence (0..10); with the
+\* talk-spurt families 11 / 12 "the recently decoded level" (five packets, 12..100 ms) is ill-defined at an onset
+\* (measured +20.6 dB) and the MDCT layer's noise floor estimate is the signal: they serve M3 / M5 / M6 only (R2)
+Stationary == cf.sig <= 10
 
 \* R2 sub-domains of the two clauses that hold only there (calibration table in spec/cfg/LinkTrace.cfg):
 \* clean talk spurts separated by exact digital silence (family 11: harmonic, modulated, no additive noise, so the
@@ -172,13 +176,13 @@ RxWhy(e) ==
   ELSE IF e.r # want THEN <<"returned duration", e.r, want>>                                  \* exact durations
   ELSE IF e.lv >= 30000 THEN <<"output not finite">>
   ELSE IF Decodes(e) /\ e.dr # e.er THEN <<"final range of a received packet", e.er, e.dr>>     \* received packets unaffected
-  ELSE IF conceals /\ Level >= LevelFloor /\ e.lv > Level + M1
+  ELSE IF conceals /\ Stationary /\ Level >= LevelFloor /\ e.lv > Level + M1
        THEN <<"concealment exceeds the recent level", e.lv, Level, M1>>
   \* (asserted for the MDCT layer's concealment only: the speech layer's comfort noise keeps the level of whatever
   \*  its activity detector took for background - measured: no decay at all over 10 s - see the calibration notes)
-  ELSE IF conceals /\ Level >= LevelFloor /\ w.run >= M2After /\ D!PlcMode(w.d) = MODE_CELT /\ e.lv > Level - M2 /\ e.lv > LevelFloor - M2
+  ELSE IF conceals /\ Stationary /\ Level >= LevelFloor /\ w.run >= M2After /\ D!PlcMode(w.d) = MODE_CELT /\ e.lv > Level - M2 /\ e.lv > LevelFloor - M2
        THEN <<"concealment does not decay under sustained loss", e.lv, Level, w.run>>
-  ELSE IF conceals /\ Level >= LevelFloor /\ w.run >= M2LateAfter /\ D!PlcMode(w.d) = MODE_CELT /\ e.lv > Level - M2Late /\ e.lv > LevelFloor - M2Late
+  ELSE IF conceals /\ Stationary /\ Level >= LevelFloor /\ w.run >= M2LateAfter /\ D!PlcMode(w.d) = MODE_CELT /\ e.lv > Level - M2Late /\ e.lv > LevelFloor - M2Late
        THEN <<"concealment does not decay under sustained loss (late)", e.lv, Level, w.run>>
   ELSE IF conceals /\ Level >= LevelFloor /\ w.run >= M5After /\ CleanSpeechLayer /\ e.lv > Level - M5 /\ e.lv > LevelFloor - M5
        THEN <<"speech-layer concealment of a clean signal does not decay under sustained loss", e.lv, Level, w.run>>
@@ -241,7 +245,7 @@ Step(e) ==
                   good == Decodes(e)
                   rec == FecRecovers(e) /\ acc.nf < 4000
                   c1 == ~good /\ ~FecRecovers(e) /\ Level >= LevelFloor
-                  c2 == c1 /\ w.run >= 160 /\ D!PlcMode(w.d) = MODE_CELT
+                  c2 == c1 /\ Stationary /\ w.run >= 160 /\ D!PlcMode(w.d) = MODE_CELT
                   c5 == c1 /\ CleanSpeechLayer /\ w.run >= 160
                   r3 == IsolatedFec(e) /\ acc.nf3 < 4000
                   units == e.r \div Qo IN
@@ -260,8 +264,8 @@ Step(e) ==
                                          !.sp = IF rec THEN acc.sp + e.pe ELSE acc.sp,
                                          !.nf = IF rec THEN acc.nf + 1 ELSE acc.nf,
                                          !.drift = IF Conforms(e) THEN acc.drift ELSE acc.drift + 1,
-                                         !.o1 = IF c1 THEN Mx(acc.o1, e.lv - Level) ELSE acc.o1,
-                                         !.n1 = IF c1 /\ acc.n1 < 1000000 THEN acc.n1 + 1 ELSE acc.n1,
+                                         !.o1 = IF c1 /\ Stationary THEN Mx(acc.o1, e.lv - Level) ELSE acc.o1,
+                                         !.n1 = IF c1 /\ Stationary /\ acc.n1 < 1000000 THEN acc.n1 + 1 ELSE acc.n1,
                                          !.o2 = IF c2 THEN Mx(acc.o2, e.lv - Mx(Level, LevelFloor)) ELSE acc.o2,
                                          !.n2 = IF c2 /\ acc.n2 < 1000000 THEN acc.n2 + 1 ELSE acc.n2,
                                          !.o2b = IF c2 /\ w.run >= 400 THEN Mx(acc.o2b, e.lv - Mx(Level, LevelFloor)) ELSE acc.o2b,
